@@ -131,6 +131,8 @@ pub fn run(seed: u64, count: usize, outdir: &str) -> std::io::Result<i32> {
                       if orc.minmax_tie || orc.zero_tie || orc.atan00 || orc.abs_of_neg_zero { continue; } }
                     let n = img[s.1 * w + s.0].normal; let gk = gs[k];
                     let want = [gk.dx, gk.dy, gk.dz];
+                    // (a gradient with a NaN or infinite component: not a point of differentiability)
+                    if want.iter().any(|v| !v.is_finite()) { continue; }
                     let mag = want.iter().fold(1.0f32, |a, b| a.max(b.abs()));
                     let ok = (0..3).all(|i| n[i] == want[i] /* also equal infinities */ || (n[i] - want[i]).abs() <= 2e-3 * mag || (n[i].is_nan() && want[i].is_nan()));
                     nnormals += 1;
